@@ -452,6 +452,7 @@ Section Gates.
   Definition verify_signature (s : state) (msg uid sig : bytes) : bool :=
     if auth_max_sig_len <? blen sig then false
     else if auth_max_user_id_len <? blen uid then false
+    else if auth_verify_rejects_reserved && is_reserved_id uid then false
     else match alookup uid (st_users s) with
          | None => false
          | Some u => u_active u && bytes_eqb sig (hmac (u_key u) msg)
